@@ -17,7 +17,7 @@ claimed = {
    note="Holds on the executions produced. Expiry-driven deletion is exercised by the C14 check, not here. Trusted: model.go, feed decoding by sg-bucket's DecodeValueWithAllXattrs.",
    technique="runtime monitor: observer agreement (reads, live event, backfill event, next insert) + reference model", design="§5 C05"),
  "C06": dict(level="exploration", engine="diffsim",
-   text="Accept-iff-no-body table monitor: every insert-style entry point is applied after every catalogue prefix (including delete/re-create cycles through different entry points) and in random insert-heavy histories; acceptance is compared with the model's 'has a body' / 'exists at all', refusals are checked with the model-free frame rule, successes by read-back.",
+   text="Accept-iff-no-body table monitor: every insert-style entry point is applied after every catalogue prefix (including delete/re-create cycles through different entry points) and in random insert-heavy histories; acceptance is compared with the model's 'has a body' / 'exists at all', refusals are checked with the model-free frame rule, successes by read-back; zero-length (non-nil) bodies are handed to every insert-style entry point including the body+xattr ones.",
    note="Holds on the executions produced; prefixes are bounded (catalogue prefixes up to 3 ops, +1 random op in thorough, random histories of 80-160 steps).",
    technique="runtime differential monitor: accept/refuse oracle + frame rule", design="§5 C06"),
  "C07": dict(level="exploration", engine="diffsim",
@@ -25,13 +25,13 @@ claimed = {
    note="Holds on the executions produced. WithMeta xattr blobs are generated in canonical JSON form (rosmar normalises a verbatim-stored blob on the next xattr write; that JSON-equivalent normalisation is outside the judged envelope, see DESIGN.md §3.12).",
    technique="runtime differential monitor: byte-identity of unnamed xattrs, all-or-nothing frame rule, macro oracle", design="§5 C07"),
  "C11": dict(level="exploration", engine="diffsim",
-   text="Isolation-frame monitor on 2 buckets x 3 collections that all hold the same key names: after every operation the same key is re-read in every other collection and bucket and must be byte-identical to its last read-back; feeds of other collections must stay silent and events carry the addressed collection's id; full sweeps periodically; Touch, PurgeTombstones, DropDataStore + re-create in the mix with the drop clauses checked (own documents, design documents and feeds gone, re-created collection empty, everything else untouched).",
-   note="Holds on the executions produced. Views and SQL queries per collection are judged by the C12 / C19 checks. DropDataStore is exercised through the bucket's only handle.",
-   technique="runtime monitor: isolation frame (read-back of sibling collections/buckets) + feed silence", design="§5 C11"),
+   text="Isolation-frame monitor on 2 buckets x 3 collections that all hold the same key names: after every operation the same key is re-read in every other collection and bucket and must be byte-identical to its last read-back; feeds of other collections must stay silent and events carry the addressed collection's id; full sweeps periodically; Touch, PurgeTombstones, DropDataStore + re-create in the mix with the drop clauses checked (own documents, design documents and feeds gone, re-created collection empty, everything else untouched). Non-interference monitor (model-free): two buckets get the same history on one collection, one of them additionally gets traffic on the sibling collections; non-stale views and SQL queries over the first collection must give identical results in both. Stale-DataStore monitor: after handle A dropped a collection and created another, 14 kinds of writes issued by handle B through the DataStore it still holds for the dropped collection must leave every other collection's read-back and feeds untouched.",
+   note="Holds on the executions produced. Views and SQL queries are compared between a quiet and a busy bucket here, and against their oracles by the C12 / C19 checks. Inside engine A DropDataStore is exercised through the bucket's only handle; what a sibling handle's stale DataStore returns itself is not judged, only what it does to other collections.",
+   technique="runtime monitor: isolation frame (read-back of sibling collections/buckets) + feed silence + two-bucket non-interference comparison of views/queries", design="§5 C11"),
  "C17": dict(level="exploration", engine="diffsim",
-   text="Revision-counter monitor: after every step the model counter (previous+1 on success, unchanged on failure, 1 on creation / re-creation after purge) is compared through four observers: $document.revid, the revid inside $document, RevNo of the live event and RevNo of the key's backfill event.",
-   note="Holds on the executions produced (all mutating entry points x pre-state classes enumerated; random histories).",
-   technique="runtime differential monitor over four observers of the revision number", design="§5 C17"),
+   text="Revision-counter monitor: after every step the model counter (previous+1 on success, unchanged on failure, 1 on creation / re-creation after purge) is compared through four observers: $document.revid, the revid inside $document, RevNo of the live event and RevNo of the key's backfill event. Concurrent counter monitor: 2-6 goroutines over 1-3 handles mutate one key through body writes, touches, xattr-only writes, sub-document writes, deletions and re-creations; the final $document.revid must equal the start value plus the number of acknowledged mutations, the RevNo values of the key's live events must increase strictly and end at that number.",
+   note="Holds on the executions produced (all mutating entry points x pre-state classes enumerated; random histories; sampled schedules for the concurrent counter).",
+   technique="runtime differential monitor over four observers of the revision number + conservation oracle (acknowledged mutations = revision increments) under concurrency", design="§5 C17"),
 }
 
 claimed.update({
@@ -44,7 +44,7 @@ claimed.update({
    note="Schedules are sampled; a porcupine timeout is inconclusive. Expiry and revision numbers are not part of the concurrent model. Race reports count only when both stacks hold rosmar frames; each signature has one owner property.",
    technique="recorded histories + porcupine linearizability checking + conservation monitors + Go race detector", design="§5 C03"),
  "C04": dict(level="exploration", engine="hlc+linz+crash",
-   text="Clock monitor: a HybridLogicalClock built through the verif-only constructor reads scripted clocks (constant, decreasing, saw-tooth, backward jumps, sub-granularity advance, equal runs, zero, near 2^62, random) from 1-64 goroutines: per-caller strict increase, uniqueness, above the seed, real-time order by an n log n sweep; bucket monitor: the same scripts installed into the process-global clock while 3-8 writers hit 2-3 buckets (with buckets opened and old-CAS WithMeta writes mid-run): same checks over casOut across buckets; reopen monitor: writer child with the clock an hour ahead (killed at a hook point / closed, optionally after dropping the collection that got the highest CAS), reopening child with the clock an hour behind: every new CAS exceeds every acknowledged one.",
+   text="Clock monitor: a HybridLogicalClock built through the verif-only constructor reads scripted clocks (constant, decreasing, saw-tooth, backward jumps, sub-granularity advance, equal runs, zero, near 2^62, random) from 1-64 goroutines: per-caller strict increase, uniqueness, above the seed, real-time order by an n log n sweep; bucket monitor: the same scripts installed into the process-global clock while 3-8 writers hit 2-3 buckets (with buckets opened and old-CAS WithMeta writes mid-run): same checks over casOut across buckets, plus per key: the CAS grows strictly along the order in which the writes were applied (live feeds on every collection, flushed by a sentinel write) and the stored CAS is the largest any writer was handed; reopen monitor: writer child with the clock an hour ahead (killed at a hook point / closed, optionally after dropping the collection that got the highest CAS, or after WithMeta writes that carry old CAS values into other collections as the last writes), reopening child with the clock an hour behind: every new CAS exceeds every acknowledged one.",
    note="Clock readings bounded to [0, 2^62]. WithMeta writes carry caller-chosen CAS and are excluded by the statement.",
    technique="order/uniqueness checker over recorded timestamps with injected clocks; child-process reopen with rewound clock; race detector", design="§5 C04"),
  "C08": dict(level="exploration", engine="diffsim+linz",
@@ -68,11 +68,11 @@ claimed.update({
    note="Each on-disk directory is used with one bucket name; CloseAndDelete through a closed handle is exercised only while no other handle of that bucket is open (the clean-up idiom).",
    technique="runtime monitor: lifecycle reference model + probe of every handle after every step + race detector", design="§5 C13"),
  "C14": dict(level="exploration", engine="rt+diffsim+crash",
-   text="Real-time monitor: a deadline 2-3 s ahead is introduced through 19 entry points in 12 order classes; only reads poll: a read completing before second T that reports the key missing is a violation (sound under load), by T+3 s the tombstone and its deletion event must be there (or, for lengthened/cleared expiries, the document must still be readable), with a scheduler-lateness canary; GetExpiry is judged after every entry point sequentially (engine A); pending and overdue deadlines are checked across kill/close and reopen in a fresh process.",
+   text="Real-time monitor: a deadline 2-3 s ahead is introduced through 19 entry points in 12 order classes (the later deadline of another key arrives through Set or through any of the 19 entry points, far Touch included); only reads poll: a read completing before second T that reports the key missing is a violation (sound under load), by T+3 s the tombstone and its deletion event must be there (or, for lengthened/cleared expiries, the document must still be readable), with a scheduler-lateness canary; GetExpiry is judged after every entry point sequentially (engine A); pending and overdue deadlines are checked across kill/close and reopen in a fresh process.",
    note="Inherently wall-clock; 'a few seconds' is fixed at B = 3 s. Other deadlines of the same bucket are absent or >= T+8 s.",
    technique="real-time runtime monitor (read-only polling + feed observer + canary) + sequential expiry-in-force oracle + reopen experiment", design="§5 C14"),
  "C15": dict(level="exploration", engine="linz",
-   text="Checkpoint monitor: writers run while a resume-mode feed is started through alternating handles, allowed a PRNG-chosen number of callbacks (callback parked so events stay queued), stopped, its checkpoint read, 3-8 times, then a Dump resume run catches up; a third of the scenarios run with a frozen clock so every CAS is the successor of the previous one; oracle: last_seq never exceeds the highest delivered CAS and every key's final version is in the union of deliveries.",
+   text="Checkpoint monitor: writers run while a resume-mode feed is started through alternating handles, allowed a PRNG-chosen number of callbacks (callback parked so events stay queued), stopped, its checkpoint read, 3-8 times, then a Dump resume run catches up; a third of the scenarios run with a frozen clock so every CAS is the successor of the previous one; oracle: last_seq never exceeds the highest delivered CAS every key's final version is in the union of deliveries, and the newest version delivered for a key describes its final state; while the feed is stopped, keys of their own are re-created over tombstones that earlier runs already delivered and checkpointed, so only a resume can deliver their final version.",
    note="Stops are sampled at PRNG-chosen callback counts. The checkpoint document itself is excluded from the must-deliver set.",
    technique="runtime monitor over recorded deliveries and checkpoint documents across feed restarts", design="§5 C15"),
  "C16": dict(level="exploration", engine="life",
@@ -81,10 +81,10 @@ claimed.update({
    technique="runtime monitor: feed status model (done channels, barriers, post-termination callbacks, goroutine profile)", design="§5 C16"),
  "C18": dict(level="exploration", engine="diffsim+linz",
    text="Sequential JSON-edit equality over path shapes x document shapes x CAS classes (incl. GetSubDocRaw against the addressed property); concurrent property-owner histories (each client owns one property and sets/removes it, others append to a list and write xattrs: every property reflects its owner's last acknowledged operation); forced windows at the subdoc.rw hook.",
-   note="Paths with [] or escapes and JSON null values are outside the envelope.",
+   note="Paths with [] or escapes are outside the envelope; a property holding JSON null is only used as a parent on the path (must be refused like a missing parent), not addressed itself. Removals are issued with nil and with empty non-nil values.",
    technique="runtime differential monitor + ownership/conservation oracle under concurrency + hook-placed rival", design="§5 C18"),
  "C19": dict(level="exploration", engine="diffsim",
-   text="Query oracle: a family of seven SQLite queries over $_keyspace is executed through Next and NextBytes on in-memory and on-disk buckets at PRNG-chosen points of histories over three collections sharing key names and compared with the same predicates evaluated natively over the KV read-back of that collection.",
+   text="Query oracle: a family of eleven SQLite queries (including `xattrs IS NULL`, the raw xattrs column, and rows whose first or middle columns are SQL NULL) over $_keyspace is executed through Next and NextBytes on in-memory and on-disk buckets at PRNG-chosen points of histories over three collections sharing key names and compared with the same predicates evaluated natively over the KV read-back of that collection.",
    note="The query family is fixed; SQLite's expression semantics are trusted. Body-property queries run only while every live document of the collection is valid JSON.",
    technique="runtime differential monitor: query rows vs native predicate over KV read-back", design="§5 C19"),
  "C20": dict(level="exploration", engine="life",
